@@ -179,7 +179,7 @@ def c04(ctx):
     quick = ctx.tier == "quick"
     mc_engine(ctx, 2 if quick else 3, 2, MC_SEEDS_QUICK if quick else MC_SEEDS_THOROUGH)
     summ = b1_undo(ctx, 1 if quick else 2)
-    bad, ev, hist, sk = run_traces(ctx, "walk", 12, 5 if quick else 60, 160 if quick else 400)
+    bad, ev, hist, sk = run_traces(ctx, "walk", 12, 5 if quick else 20, 160 if quick else 400)
     absorb_bad(ctx, bad)
     bad2, ev2, h2, sk2 = run_traces(ctx, "repetition", 4 if quick else 12, 3 if quick else 30, 200)
     absorb_bad(ctx, bad2)
@@ -206,7 +206,7 @@ def c05(ctx):
             from common import ensure_harness
             ensure_harness(fresh_tables=True)
         tables_check(ctx)
-        bad, ev, hist, sk = run_traces(ctx, "walk", 12, 5 if quick else 40, 160 if quick else 300, label="walk%d" % d)
+        bad, ev, hist, sk = run_traces(ctx, "walk", 12, 5 if quick else (12 if d == 0 else 5), 160 if quick else 300, label="walk%d" % d)
         absorb_bad(ctx, bad)
         bad2, ev2, h2, sk2 = run_traces(ctx, "scripts", 1, 0, 0, label="scripts%d" % d)
         absorb_bad(ctx, bad2)
@@ -223,7 +223,7 @@ def c05(ctx):
 def c12(ctx):
     quick = ctx.tier == "quick"
     mc_engine(ctx, 2 if quick else 3, 1, MC_SEEDS_QUICK if quick else MC_SEEDS_THOROUGH)
-    bad, ev, hist, sk = run_traces(ctx, "walk", 12, 4 if quick else 40, 160 if quick else 300, with_sum=True)
+    bad, ev, hist, sk = run_traces(ctx, "walk", 12, 4 if quick else 15, 160 if quick else 300, with_sum=True)
     absorb_bad(ctx, bad)
     bad2, ev2, h2, sk2 = run_traces(ctx, "clock", 4 if quick else 12, 2 if quick else 10, 250, with_sum=True)
     absorb_bad(ctx, bad2)
